@@ -221,12 +221,12 @@ func c15Range(multi bool) c15AbsRange {
 
 // c15NewUpstreamSeq: an upstream whose behaviour is m1 until *phase becomes 1 and m2 afterwards (HTTP-level modes only),
 // and whose fault applies to one slice of a range query only when sliceFault >= 0.
-func c15NewUpstreamSeq(ep string, idx int, m1, m2 c15Mode, phase *atomic.Int32, sliceFault int) *fakeUpstream {
+func c15NewUpstreamSeq(ep, ep2 string, idx int, m1, m2 c15Mode, phase *atomic.Int32, sliceFault int) *fakeUpstream {
 	if m1.Transport != "" || m2.Transport != "" {
 		return c15NewUpstream(ep, idx, m1)
 	}
 	healthy := c15Handler(ep, idx, c15Listed[0])
-	h1, h2 := c15Handler(ep, idx, m1), c15Handler(ep, idx, m2)
+	h1, h2 := c15Handler(ep, idx, m1), c15Handler(ep2, idx, m2)
 	return newHTTPUpstream(func(w http.ResponseWriter, r *http.Request) {
 		if sliceFault >= 0 {
 			_ = r.ParseForm()
@@ -304,6 +304,9 @@ type c15Case struct {
 	// Modes2: what every upstream does during the SECOND call on the same group (a fault SEQUENCE: an upstream that
 	// recovers or fails between two identical requests); nil = unchanged.  Only HTTP-level modes change.
 	Modes2 []c15Mode `json:"modes_second_call,omitempty"`
+	// Endpoint2: the second call asks a DIFFERENT API of the same group ("" = the same endpoint): the client state one
+	// API left behind (cache entries, "this server does not support …" flags) must not leak into another API.
+	Endpoint2 string `json:"endpoint_second_call,omitempty"`
 	Binary   *c15BinObs `json:"binary_run,omitempty"`
 }
 
@@ -332,7 +335,11 @@ func c15Upstreams(c *c15Case, phase *atomic.Int32) []*fakeUpstream {
 		if i < len(c.SliceFault) {
 			sf = c.SliceFault[i]
 		}
-		ups[i] = c15NewUpstreamSeq(c.Endpoint, i, m, m2, phase, sf)
+		ep2 := c.Endpoint
+		if c.Endpoint2 != "" {
+			ep2 = c.Endpoint2
+		}
+		ups[i] = c15NewUpstreamSeq(c.Endpoint, ep2, i, m, m2, phase, sf)
 	}
 	return ups
 }
@@ -404,9 +411,10 @@ func c15RunDirect(c *c15Case, phase *atomic.Int32, shared []*fakeUpstream, obs *
 	defer cleanup()
 	ctx := context.Background()
 	// call performs the endpoint's FailoverGroup method once: (error, answering upstream, marker of the answer)
+	callEp := ep
 	call := func() (err error, answerIdx int, marker string) {
 		answerIdx = -1
-		switch ep {
+		switch callEp {
 		case "query":
 			var qr *promapi.QueryResult
 			qr, err = fg.Query(ctx, "up")
@@ -504,6 +512,9 @@ func c15RunDirect(c *c15Case, phase *atomic.Int32, shared []*fakeUpstream, obs *
 	}
 	if second {
 		phase.Store(1)
+		if c.Endpoint2 != "" {
+			callEp = c.Endpoint2
+		}
 		err2, idx2, marker2 := call()
 		sc := &c15Second{OK: err2 == nil, AnswerIdx: idx2, Marker: marker2, ErrIdx: -1, ErrKind: c15ErrKind(err2)}
 		var fe *promapi.FailoverGroupError
@@ -871,12 +882,17 @@ func c15OracleSecond(c *c15Case, first int) []string {
 			return nil
 		}
 	}
+	ep2 := c.Endpoint
+	if c.Endpoint2 != "" {
+		ep2 = c.Endpoint2
+	}
 	a1 := -1
-	if first < n && c15Expect(c.Endpoint, c.Modes[first]) == "answer" {
+	if ep2 == c.Endpoint && first < n && c15Expect(c.Endpoint, c.Modes[first]) == "answer" {
 		a1 = first
 	}
-	// a status API that answered 404 is remembered as unsupported by design: not judged
-	if c15ConfigLike(c.Endpoint) {
+	// a status API that answered 404 is remembered as unsupported by design: not judged (the SAME API only: what one
+	// API answered says nothing about another one)
+	if ep2 == c.Endpoint && c15ConfigLike(c.Endpoint) {
 		for i := 0; i <= first && i < n; i++ {
 			if c.Modes[i].Class == "not_found" {
 				return nil
@@ -885,12 +901,12 @@ func c15OracleSecond(c *c15Case, first int) []string {
 	}
 	exp := n
 	for i, m := range modes2 {
-		if i == a1 || c15Expect(c.Endpoint, m) != "next" {
+		if i == a1 || c15Expect(ep2, m) != "next" {
 			exp = i
 			break
 		}
 	}
-	if exp == a1 && c15Expect(c.Endpoint, modes2[a1]) != "answer" {
+	if exp == a1 && c15Expect(ep2, modes2[a1]) != "answer" {
 		return nil // the cached answer of an upstream that went down afterwards: the property does not say
 	}
 	var bad []string
@@ -901,7 +917,7 @@ func c15OracleSecond(c *c15Case, first int) []string {
 		}
 		return out
 	}
-	pre := fmt.Sprintf("second call (modes now %v)", names(modes2))
+	pre := fmt.Sprintf("second call (%s, modes now %v)", ep2, names(modes2))
 	for i := 0; i < n && i < len(sc.Client); i++ {
 		switch {
 		case i > exp && sc.Client[i] != 0:
@@ -913,7 +929,7 @@ func c15OracleSecond(c *c15Case, first int) []string {
 		}
 	}
 	switch {
-	case exp < n && (exp == a1 || c15Expect(c.Endpoint, modes2[exp]) == "answer"):
+	case exp < n && (exp == a1 || c15Expect(ep2, modes2[exp]) == "answer"):
 		if !sc.OK || sc.AnswerIdx != exp || sc.Marker != c15Marker(exp) {
 			bad = append(bad, fmt.Sprintf("%s: expected the unchanged answer of upstream %d (first reachable), got ok=%v answer_idx=%d marker=%q kind=%s", pre, exp, sc.OK, sc.AnswerIdx, sc.Marker, sc.ErrKind))
 		}
@@ -982,14 +998,18 @@ func c15CoqCase(c *c15Case) string {
 		ups[i] = fmt.Sprintf("(mk_upstream %s %s false None)", c15CoqResponse(c.Endpoint, m), coqStr(c15Marker(i)))
 	}
 	o := c.Obs
+	ep2 := c.Endpoint
+	if c.Endpoint2 != "" {
+		ep2 = c.Endpoint2
+	}
 	var r2 []string
 	for _, m := range c.Modes2 {
-		r2 = append(r2, c15CoqResponse(c.Endpoint, m))
+		r2 = append(r2, c15CoqResponse(ep2, m))
 	}
-	return fmt.Sprintf("{| c_id := %s; c_ep := %s; c_required := %s; c_ups := %s; c_resps2 := %s; c_check_run := %s; "+
+	return fmt.Sprintf("{| c_id := %s; c_ep := %s; c_required := %s; c_ups := %s; c_resps2 := %s; c_ep2 := %s; c_check_run := %s; "+
 		"o_ok := %s; o_answer_idx := %s; o_marker := %s; o_err_idx := %s; o_err_kind := %s; o_unavailable := %s; o_strict := %s; "+
 		"o_client := %s; o_server := %s; o_problems := %s; o_client_check := %s; o_second := %s |}",
-		coqN(c.ID), c15CoqEndpoint(c.Endpoint), coqBool(c.Required), coqList(ups), coqList(r2), coqBool(c.SliceFault == nil),
+		coqN(c.ID), c15CoqEndpoint(c.Endpoint), coqBool(c.Required), coqList(ups), coqList(r2), c15CoqEndpoint(ep2), coqBool(c.SliceFault == nil),
 		coqBool(o.OK), coqZ(int64(o.AnswerIdx)), coqStr(o.Marker), coqZ(int64(o.ErrIdx)), coqStr(o.ErrKind), coqBool(o.Unavailable), coqBool(o.Strict),
 		c15CoqInts(o.Client), c15CoqInts(o.Server), coqStrList(o.Problems), c15CoqInts(o.ClientB), c15CoqSecond(o.Second))
 }
@@ -1144,6 +1164,35 @@ func c15Enumerate(tier string, r *rand.Rand, nExtra int) []c15Case {
 			}
 		}
 	}
+	// cross-API sequences: the first call asks one API, the second call another API of the same group.  Whatever the first
+	// API answered (404 = "this API is not supported here", errors, a cached answer) must not change how the second API
+	// is served: every ordered pair of the three status/metadata APIs, plus pairs with the query APIs
+	pairs := [][2]string{{"config", "flags"}, {"config", "metadata"}, {"flags", "config"}, {"flags", "metadata"}, {"metadata", "config"}, {"metadata", "flags"},
+		{"query", "config"}, {"flags", "query"}, {"query", "range"}, {"metadata", "range"}}
+	if tier == "thorough" {
+		pairs = nil
+		for _, a := range c15Endpoints {
+			for _, b := range c15Endpoints {
+				if a != b {
+					pairs = append(pairs, [2]string{a, b})
+				}
+			}
+		}
+	}
+	for _, pr := range pairs {
+		for _, a := range H {
+			x := func(m1, m2 []c15Mode) {
+				add(pr[0], req(), m1...)
+				cases[len(cases)-1].Modes2 = append([]c15Mode{}, m2...)
+				cases[len(cases)-1].Endpoint2 = pr[1]
+			}
+			x([]c15Mode{a}, []c15Mode{L[0]})
+			x([]c15Mode{a, L[0]}, []c15Mode{L[0], L[0]})
+			if a.Name != "healthy" {
+				x([]c15Mode{a, L[0]}, []c15Mode{a, L[0]})
+			}
+		}
+	}
 	all := append(append([]c15Mode{}, L...), c15Extra...)
 	for i := 0; i < nExtra; i++ {
 		k := 1 + r.Intn(3)
@@ -1209,6 +1258,11 @@ func c15SearchCases(r *rand.Rand, n int) []c15Case {
 				}
 			}
 			c.Modes2 = m2
+			if r.Intn(3) == 0 {
+				if e2 := c15Endpoints[r.Intn(5)]; e2 != c.Endpoint {
+					c.Endpoint2 = e2
+				}
+			}
 		} else if c.Endpoint == "range" && timeouts == 0 && r.Intn(2) == 0 {
 			c.MultiSlice = true
 			if r.Intn(2) == 0 {
@@ -1410,7 +1464,10 @@ func runC15(args []string) int {
 		}
 		key := fmt.Sprintf("%s/%v/%v/%s", c.Endpoint, c.Required, c.MultiSlice, strings.Join(names, ","))
 		if c.Modes2 != nil {
-			key += "=>"
+			key += "=>" + c.Endpoint2 + ":"
+			if c.Endpoint2 != "" {
+				rep.hist("second call on another API of the same group")
+			}
 			for _, m := range c.Modes2 {
 				key += m.Name + ","
 			}
